@@ -345,6 +345,14 @@ impl<'t, 'a> SynGen<'t, 'a> {
     }
 
     pub fn poetic(&mut self) -> Vec<PoeticElem> {
+        // one literal in three from the richer word stock of the poetic-literal generator: every keyword and alias in
+        // any letter case (also in first position), digit tokens as words, long words
+        if self.t.chance(1, 3) {
+            let v = super::poetic::literal(self.t, super::poetic::PoeticCfg { orphan_suffix: self.cfg.orphan_suffix, max_digits_each_side: 12 });
+            if v.len() <= 24 {
+                return v;
+            }
+        }
         let n = 1 + self.t.weighted(&[30, 30, 20, 10, 5, 3, 2]);
         let mut v: Vec<PoeticElem> = Vec::new();
         // 0 = start of literal / right after a dot (a suffix here is an orphan), 1 = after a word or
